@@ -1,7 +1,7 @@
 (* Model of SingleExecMatcher (src/find/matchers/exec.rs): templates split at "{}" when the
    expression is parsed, joined with the path for every file; -execdir's ./basename and working
    directory.  Definitions only. *)
-Require Import PathModel.
+Require Import PathModel Paths PrintfValue.
 From Coq Require Import List Arith Bool.
 Import ListNotations.
 
@@ -32,24 +32,28 @@ Fixpoint subst (path s : list byte) : list byte :=
   end.
 
 
-(* the path handed to the command: as visited, or ./basename for -execdir: "." joined with the last component
-   as spelled (also ".." or "."; "/" stays "/"), or with the whole path when it has no component *)
+(* split_for_execdir: the directory to run in and the name of the entry from there, from the path as spelled - trailing
+   slashes ignored, a final "." or ".." is a name like any other ("d/." is "./." in "d"); a path of slashes only is run
+   from itself and named as it is.  The name is what %f prints and the directory what %h prints (PrintfValue). *)
 Definition exec_path (execdir : bool) (path : list byte) : list byte :=
   if execdir then
-    match rev (components path) with
-    | c :: _ => PathModel.join [DOT] (comp_text path c)
-    | [] => PathModel.join [DOT] path
+    match trim_end_sl path with
+    | [] => path
+    | t => DOT :: SL :: last_seg t []
     end
   else path.
 (* the working directory of the child: None = unchanged *)
 Definition exec_cwd (execdir : bool) (path : list byte) : option (list byte) :=
   if execdir then
-    match parent path with
-    | None => Some path                 (* "/" has no parent: run from it *)
-    | Some [] => None                   (* "foo" has parent "": no chdir *)
-    | Some p => Some p
+    match trim_end_sl path with
+    | [] => Some path                   (* "/": run from it *)
+    | t => match dir_seg t [] None with
+           | None => None               (* "foo" is in the current directory: no chdir *)
+           | Some [] => Some [SL]       (* "/foo" *)
+           | Some d => Some d
+           end
     end
   else None.
-(* argv: the executable, then one argument per template whatever the path contains *)
+(* argv: the command word and one argument per template whatever the path contains, {} replaced in all of them *)
 Definition exec_argv (execdir : bool) (exe : list byte) (tmpls : list (list byte)) (path : list byte) : list (list byte) :=
-  exe :: map (fun t => render t (exec_path execdir path)) tmpls.
+  map (fun t => render t (exec_path execdir path)) (exe :: tmpls).
